@@ -404,6 +404,137 @@ macro_rules! unop {
     };
 }
 
+/// NOT dst: dst := !dst, no flag changes, nothing else changes
+macro_rules! notop {
+    ($h:ident, $lab:expr, $w:expr, $mkdst:ident, $call:expr) => {
+        #[cfg_attr(kani, kani::proof)]
+        pub fn $h() {
+            let mut vm = mk_vm();
+            let mut ctx = mk_ctx();
+            vsym!(w_p: usize);
+            vassume!(w_p < MBU);
+            vcell!(vm, w_p, w_pv);
+            let d: Op = $mkdst(&mut vm, &mut ctx);
+            vcell!(vm, d.m, w_c0);
+            vcell!(vm, nxt(d.m), w_c1);
+            let pre = regs(&vm);
+            #[cfg(not(kani))]
+            let snap = snapshot(&vm);
+            ($call)(&mut vm, &mut ctx, &d);
+            let mut er = pre;
+            let mut expect_mem = w_pv;
+            if $w == 8 {
+                let v = !d.val8(&pre, w_c0);
+                if d.is_mem() { expect_mem = probe_after8(&d, v, w_p, w_pv); } else { set_r8(&mut er, d.id, v); }
+            } else {
+                let v = !d.val16(&pre, w_c0, w_c1);
+                if d.is_mem() { expect_mem = probe_after16(&d, v, w_p, w_pv); } else { set_r16(&mut er, d.id, v); }
+            }
+            vassert!(concat!($lab, ".registers_and_flags"), regs(&vm) == er);
+            vassert!(concat!($lab, ".memory"), vm.mem[w_p] == expect_mem);
+            vcover!(concat!($lab, ".cover.probe_hits_operand"), !d.is_mem() || w_p == d.m || w_p == nxt(d.m));
+            #[cfg(not(kani))]
+            {
+                let mut c2 = ctx_for_label(pre.ds, d.m);
+                if d.md.shape != 9 {
+                    glue(stringify!($h), &snap, &vm, &mut c2, &format!("not {}", d.text($w, false)), Some("NEXT".to_string()));
+                }
+            }
+            done_ctx(ctx);
+            done(vm);
+        }
+    };
+}
+
+/// MOV dst, src: dst := src, flags and everything else unchanged
+macro_rules! movop {
+    ($h:ident, $lab:expr, $w:expr, $mkdst:ident, $mksrc:ident, $probe:tt, $call:expr) => {
+        #[cfg_attr(kani, kani::proof)]
+        pub fn $h() {
+            let mut vm = mk_vm();
+            let mut ctx = mk_ctx();
+            probe_decl!($probe, vm, w_p, w_pv);
+            let d: Op = $mkdst(&mut vm, &mut ctx);
+            let s: Op = $mksrc(&mut vm, &mut ctx);
+            let mm = if d.is_mem() { d.m } else { s.m };
+            vcell!(vm, mm, w_c0);
+            vcell!(vm, nxt(mm), w_c1);
+            let pre = regs(&vm);
+            #[cfg(not(kani))]
+            let snap = snapshot(&vm);
+            ($call)(&mut vm, &mut ctx, &d, &s);
+            let mut er = pre;
+            let expect_mem: u8;
+            if $w == 8 {
+                let v = s.val8(&pre, w_c0);
+                if !d.is_mem() { set_r8(&mut er, d.id, v); }
+                expect_mem = probe_after8(&d, v, w_p, w_pv);
+            } else {
+                let v = s.val16(&pre, w_c0, w_c1);
+                if !d.is_mem() { set_r16(&mut er, d.id, v); }
+                expect_mem = probe_after16(&d, v, w_p, w_pv);
+            }
+            vassert!(concat!($lab, ".registers_and_flags"), regs(&vm) == er);
+            probe_check!($probe, $lab, vm, w_p, expect_mem, !d.is_mem() || w_p == d.m || w_p == nxt(d.m));
+            #[cfg(not(kani))]
+            {
+                let mut c2 = ctx_for_label(pre.ds, mm);
+                if d.md.shape != 9 && s.md.shape != 9 {
+                    glue(stringify!($h), &snap, &vm, &mut c2, &format!("mov {}, {}", d.text($w, true), s.text($w, true)), Some("NEXT".to_string()));
+                }
+            }
+            done_ctx(ctx);
+            done(vm);
+        }
+    };
+}
+
+/// XCHG a, b: both operands swapped completely, flags and everything else unchanged
+macro_rules! xchgop {
+    ($h:ident, $lab:expr, $w:expr, $mkdst:ident, $mksrc:ident, $probe:tt, $call:expr) => {
+        #[cfg_attr(kani, kani::proof)]
+        pub fn $h() {
+            let mut vm = mk_vm();
+            let mut ctx = mk_ctx();
+            probe_decl!($probe, vm, w_p, w_pv);
+            let d: Op = $mkdst(&mut vm, &mut ctx);
+            let s: Op = $mksrc(&mut vm, &mut ctx);
+            vcell!(vm, d.m, w_c0);
+            vcell!(vm, nxt(d.m), w_c1);
+            let pre = regs(&vm);
+            #[cfg(not(kani))]
+            let snap = snapshot(&vm);
+            ($call)(&mut vm, &mut ctx, &d, &s);
+            let mut er = pre;
+            let expect_mem: u8;
+            if $w == 8 {
+                let (dv, sv) = (d.val8(&pre, w_c0), s.val8(&pre, w_c0));
+                // first operand receives the second's value, then the second receives the first's old value
+                if !d.is_mem() { set_r8(&mut er, d.id, sv); }
+                set_r8(&mut er, s.id, dv);
+                if !d.is_mem() && d.id == s.id { set_r8(&mut er, s.id, dv); }
+                expect_mem = probe_after8(&d, sv, w_p, w_pv);
+            } else {
+                let (dv, sv) = (d.val16(&pre, w_c0, w_c1), s.val16(&pre, w_c0, w_c1));
+                if !d.is_mem() { set_r16(&mut er, d.id, sv); }
+                set_r16(&mut er, s.id, dv);
+                expect_mem = probe_after16(&d, sv, w_p, w_pv);
+            }
+            vassert!(concat!($lab, ".registers_and_flags"), regs(&vm) == er);
+            probe_check!($probe, $lab, vm, w_p, expect_mem, !d.is_mem() || w_p == d.m || w_p == nxt(d.m));
+            #[cfg(not(kani))]
+            {
+                let mut c2 = ctx_for_label(pre.ds, d.m);
+                if d.md.shape != 9 {
+                    glue(stringify!($h), &snap, &vm, &mut c2, &format!("xchg {}, {}", d.text($w, true), s.text($w, true)), Some("NEXT".to_string()));
+                }
+            }
+            done_ctx(ctx);
+            done(vm);
+        }
+    };
+}
+
 pub const C: (usize, &str, usize) = (0, ",", 0);
 pub const KB: (usize, &str, usize) = (0, "byte", 0);
 pub const KW: (usize, &str, usize) = (0, "word", 0);
